@@ -11,17 +11,24 @@ written:
 For each event the path condition must imply the necessary condition of C04 / C08 in terms of the *path the event is about*:
 not excluded(path) [and (is_dir(path) or suffix(path) == ".py")], where `excluded` is the public predicate `is_excluded` of the
 filter object and is applied to the path itself (or its resolved / absolute / str form), never to a part of it.
+
+A walk delegated to `os.walk` is decided on a model of that function (see `Walk` below): which directories the library visits
+follows from the start path and from what the loop body leaves in the list of sub-directory names; registration / reading events
+about the visited directory and about its files are then judged as above with the facts the model provides.  Not decided there:
+that a start path which is a *file* is parsed at all (os.walk yields nothing for it), walks that are materialised before the loop
+(`sorted(os.walk(..))`) unless they skip by character prefix, bottom-up walks, `os.fwalk` / `glob` / `rglob`.
 """
 
 from __future__ import annotations
 
+import ast
 from dataclasses import dataclass, field
 
 from core.loader import AnalysisError, FuncInfo, Repo
 from core.report import Result
 
 from .c04_norm import ident, leaves, loc, rename_atoms, restrict, show_loc, strip_abs, unbox
-from .c04_symx import TRUE, Event, Formula, SymX, Term, Trace, atom, atoms_of, equivalent, f_and, f_not, f_or, implies, show, show_formula, simplify, substitute, subterms
+from .c04_symx import FALSE, TRUE, Event, Formula, SymX, Term, Trace, atom, atoms_of, equivalent, f_and, f_not, f_or, implies, show, show_formula, simplify, substitute, subterms
 from .common import stmt_of, types_of, where
 
 PARSER = "pytestarch.eval_structure_generation.file_import.parser"
@@ -386,6 +393,15 @@ def _accumulated(info: ScanInfo, coll: Term) -> "list[Term] | None":
                     return None
                 out += list(v[1])
         return out
+    if c[0] == "call" and c[1] in (("builtin", "tuple"), ("builtin", "list")) and len(c[2]) == 1 and c[2][0][0] == "box":
+        # `tuple(texts)` of a list that is filled by `texts.append(text)`
+        out = []
+        for e in info.trace.events:
+            if e.kind == "mut" and e.recv is not None and e.recv[0] == "box" and e.recv[1] == c[2][0][1]:
+                if e.name not in ("append", "add") or len(e.args) != 1:
+                    return None
+                out.append(e.args[0])
+        return out
     if c[0] in ("call", "mcall", "elem", "idx", "fstr", "binop"):
         return [c]
     return None
@@ -400,7 +416,444 @@ def _is_bare_path_text(x: Term) -> bool:
     return False
 
 
+# --------------------------------------------------------------------------- a walk delegated to os.walk
+#
+# `for directory, sub_directories, file_names in os.walk(top, followlinks=True)` visits `top` and then, after each run of the loop
+# body, every `directory / d` for the names `d` that are still in `sub_directories` (the list handed out is the list the library
+# descends by).  `sub_directories` are the entries for which is_dir() holds (links followed), `file_names` all other entries.
+# The scan conditions are decided on this model:
+#
+#   visited      top, if the call is reached; a child directory C = D / d if D is visited, the list was not emptied and d was kept
+#   invariant    'no visited directory is excluded' holds when the call is only reached for a top that is not excluded and only
+#                names d with `not excluded(D / d)` are kept (pruning at the parent); otherwise the loop body has to test D itself
+#   registration of D under a guard that, together with the invariant, implies `not excluded(D)`, and exactly then
+#   descent      below D only if D is not excluded (invariant, or the list is emptied whenever D is excluded), and into every
+#                child that is not excluded
+#   files        every `D / f` is handed on whenever D is not excluded, and only then
+#
+# Removing names from the list while a loop iterates over that very list skips the element after each removed one.
+
+
+@dataclass
+class Walk:
+    event: Event  # the call of os.walk
+    top: Term
+    loop: object  # the `for` loop that consumes it
+    item: Term  # the triple of one iteration
+    materialised: bool  # the whole walk has run before the first iteration (sorted(...), list(...)): pruning has no effect
+    directory: Term = ("unk", "", 0)
+    subdirs: Term = ("unk", "", 0)
+    files: Term = ("unk", "", 0)
+    problems: list = field(default_factory=list)  # why the model cannot be applied
+    violations: list = field(default_factory=list)  # (event, tag, detail)
+    cleared: list = field(default_factory=list)  # events that empty the sub-directory list
+    keeps: list = field(default_factory=list)  # (event, formula, name term): a name stays in the list only if the formula holds
+    invariant: "bool | None" = False  # every visited directory is known not to be excluded (None: cannot tell)
+    trace_events: list = field(default_factory=list)
+
+
+def _conjuncts(f: Formula) -> list:
+    return list(f[1]) if f[0] == "and" else [] if f == TRUE else [f]
+
+
+def _relative(pc, base) -> Formula:
+    """The path condition `pc` without the conjuncts of `base` (the condition under which an enclosing construct was reached)."""
+    drop = set()
+    for c in base:
+        drop.add(c)
+        drop.update(_conjuncts(c))
+    out = []
+    for c in pc:
+        if c in drop:
+            continue
+        out += [d for d in _conjuncts(c) if d not in drop]
+    return f_and(out)
+
+
+def _child_of(t: Term):
+    """(location of the directory, name) if `t` is the path of an entry of a directory: `Path(d) / n`, `os.path.join(d, n)`,
+    `Path(d, n)`, `Path(d).joinpath(n)` (also resolved / as text)."""
+    t = unbox(t)
+    while True:
+        if t[0] == "call" and t[1][0] == "lib" and t[1][1] in ("pathlib.Path", "pathlib.PurePath", "os.fspath", "os.path.abspath", "os.path.realpath", "os.path.normpath") and len(t[2]) == 1 and not t[3]:
+            t = t[2][0]
+        elif t[0] == "call" and t[1] == ("builtin", "str") and len(t[2]) == 1:
+            t = t[2][0]
+        elif t[0] == "mcall" and t[2] in ("resolve", "absolute") and not t[3]:
+            t = t[1]
+        else:
+            break
+    if t[0] == "binop" and t[1] == "/":
+        return strip_abs(loc(t[2])), t[3]
+    if t[0] == "call" and t[1][0] == "lib" and t[1][1] in ("os.path.join", "pathlib.Path", "pathlib.PurePath") and len(t[2]) == 2 and not t[3]:
+        return strip_abs(loc(t[2][0])), t[2][1]
+    if t[0] == "mcall" and t[2] == "joinpath" and len(t[3]) == 1:
+        return strip_abs(loc(t[1])), t[3][0]
+    return None
+
+
+def _is_copy_of(it: Term, seq_: Term) -> "bool | None":
+    """True: iterating `it` walks a copy of the list `seq_`; False: it walks the list itself; None: something else."""
+    if ident(it) == ident(seq_):
+        return False
+    u = it
+    if u[0] == "box" and u[3][0] in ("call", "slice", "mcall"):
+        u = u[3]
+    if u[0] == "call" and u[1] in (("builtin", "list"), ("builtin", "tuple"), ("builtin", "sorted"), ("builtin", "set"), ("builtin", "frozenset")) and len(u[2]) == 1 and ident(u[2][0]) == ident(seq_):
+        return True
+    if u[0] == "call" and u[1] == ("builtin", "reversed") and len(u[2]) == 1 and ident(u[2][0]) == ident(seq_):
+        return True  # the reverse iterator goes by decreasing index: removing the current element moves only elements it has seen
+    if u[0] == "slice" and ident(u[1]) == ident(seq_) and all(is_none(x) for x in u[2:5]):
+        return True
+    if u[0] == "mcall" and u[2] == "copy" and not u[3] and ident(u[1]) == ident(seq_):
+        return True
+    if u[0] == "call" and u[1] == ("lib", "copy.copy") and len(u[2]) == 1 and ident(u[2][0]) == ident(seq_):
+        return True
+    return None
+
+
+def _whole_slice(node) -> bool:
+    return isinstance(node, ast.Subscript) and isinstance(node.slice, ast.Slice) and node.slice.lower is None and node.slice.upper is None and node.slice.step is None
+
+
+def _empty_display(t: Term) -> bool:
+    t = unbox(t)
+    return t[0] in ("list", "tuple", "set") and not t[1] or t[0] == "call" and t[1] in (("builtin", "list"), ("builtin", "tuple")) and not t[2] or t[0] == "const" and t[1] == ""
+
+
+def walk_model(info: ScanInfo, e: Event) -> Walk | None:
+    """The model of the loop over `os.walk(...)` called by the event `e`; None when the result is not consumed by a `for` loop."""
+    sx = info.sx
+    loops = {}
+    for ev in info.trace.events:
+        for l in ev.loops:
+            loops[l.id] = l
+    mine = [l for l in loops.values() if l.iter is not None and e.result is not None and _unwrap_iterable(l.iter) == e.result]
+    top = e.arg(0, "top")
+    if len(mine) != 1 or mine[0].kind != "for" or top is None:
+        return None
+    loop = mine[0]
+    item = ("elem", loop.iter, loop.id)
+    w = Walk(e, top, loop, item, materialised=loop.iter != e.result and not (loop.iter[0] == "call" and loop.iter[1] == ("builtin", "iter")))
+    w.directory, w.subdirs, w.files = (("idx", item, ("const", i)) for i in range(3))
+    w.trace_events = info.trace.events
+    topdown = next((v for k, v in e.kwargs if k == "topdown"), e.args[1] if len(e.args) > 1 else None)
+    if topdown is not None and topdown != ("const", True):
+        w.problems.append(f"the walk is bottom-up (`topdown={show(topdown, 30)}`): the sub-directories have been visited before their parent is seen")
+    subs = ident(w.subdirs)
+    for ev in info.trace.events:
+        if ev.recv is None or ident(ev.recv) != subs or ev.kind not in ("mut", "setitem", "delitem"):
+            continue
+        if not any(l.id == loop.id for l in ev.loops):
+            continue
+        rel = _relative(ev.pc, e.pc)
+        if ev.kind == "mut" and ev.name == "clear" or ev.kind == "delitem" and _whole_slice(ev.node) or ev.kind == "setitem" and _whole_slice(ev.node) and _empty_display(ev.args[1]):
+            w.cleared.append(ev)
+        elif ev.kind == "mut" and ev.name in ("sort", "reverse"):
+            continue  # the order of the descent, not its extent
+        elif ev.kind == "mut" and ev.name == "remove" and len(ev.args) == 1:
+            x = ev.args[0]
+            inner = [l for l in ev.loops if l.id != loop.id and x[0] == "elem" and x[2] == l.id]
+            copy = _is_copy_of(inner[0].iter, w.subdirs) if inner and inner[0].iter is not None else None
+            if copy is False:
+                from core.loader import norm
+
+                w.violations.append((ev, "list pruned while it is iterated", f"`{norm(ev.node, 60)}` removes a name from the list that the enclosing loop `{_loop_text(inner[0])}` is iterating over: the name after a removed one is never examined, so an excluded directory that follows another excluded one stays in the list - `os.walk` descends into it, it is registered as a module and its files are parsed"))
+                continue
+            if copy is None:
+                w.problems.append(f"cannot tell which names `{show(x, 60)}` stands for when it is removed from the sub-directory list")
+                continue
+            # the name stays unless the removal is reached
+            w.keeps.append((ev, f_not(rel), x))
+        elif ev.kind == "setitem" and _whole_slice(ev.node):
+            v = unbox(ev.args[1])
+            while v[0] == "call" and v[1] in (("builtin", "list"), ("builtin", "sorted"), ("builtin", "tuple")) and len(v[2]) == 1:
+                v = unbox(v[2][0])
+            if v[0] == "comp" and v[1] in ("list", "gen") and len(v[3]) == 1 and v[2] == v[3][0][0] and _is_copy_of(v[3][0][1], w.subdirs) is not None:
+                tgt, _it, conds = v[3][0]
+                # (where the assignment is not reached, every name stays)
+                w.keeps.append((ev, f_or([f_not(rel), f_and([c for c in conds if c != TRUE])]), tgt))
+            elif v[0] == "call" and v[1] == ("builtin", "filter") and len(v[2]) == 2:
+                w.problems.append(f"cannot read the predicate of `{show(v, 80)}` that selects the sub-directories to descend into")
+            else:
+                w.problems.append(f"cannot tell which sub-directories `{show(v, 80)}` keeps")
+        else:
+            w.problems.append(f"cannot tell what `{ev.name}` leaves in the list of sub-directories that `os.walk` descends by")
+    for ev, g, name in w.keeps:
+        for k in sorted(atoms_of(g)):
+            t = sx.atoms.get(k)
+            if t is not None and t[0] == "mcall" and t[2] == EXCLUSION_PREDICATE and len(t[3]) == 1 and _child_of(t[3][0]) is None and strip_abs(loc(t[3][0])) == name:
+                w.violations.append((ev, "exclusion test on the path", f"the exclusion predicate is applied to `{show(t[3][0], 60)}`, the bare name of a sub-directory as `os.walk` lists it, not to its path: path patterns no longer exclude it and name-only patterns exclude it in every directory"))
+    return w
+
+
+def _pc_at_loop(info: ScanInfo, loop_id: int) -> tuple:
+    """The path condition under which the loop is entered: the longest common prefix of the conditions of the events inside it."""
+    same = [ev for ev in info.trace.events if any(l.id == loop_id for l in ev.loops)]
+    if not same:
+        return ()
+    prefix = list(same[0].pc)
+    for ev in same[1:]:
+        n = 0
+        while n < len(prefix) and n < len(ev.pc) and prefix[n] == ev.pc[n]:
+            n += 1
+        prefix = prefix[:n]
+    # the loop header itself evaluates nothing conditional: what all its events share is the condition of its entry
+    return tuple(prefix)
+
+
+def _walk_atoms(sx: SymX, f: Formula, directory: Term, name: "Term | None" = None):
+    """(formula, unread atoms): `f` over the atoms EXCL / ISDIR of the path `directory` and - with `name` - C.EXCL / C.ISDIR of
+    its entry `directory / name`."""
+    target = strip_abs(loc(directory))
+    unknown: set[str] = set()
+
+    def mapping(key: str):
+        t = sx.atoms.get(key)
+        subject = role = None
+        if t is not None and t[0] == "mcall" and t[2] == EXCLUSION_PREDICATE and len(t[3]) == 1:
+            subject, role = t[3][0], "EXCL"
+        elif t is not None and t[0] == "mcall" and t[2] == "is_dir" and not t[3]:
+            subject, role = t[1], "ISDIR"
+        elif t is not None and t[0] == "call" and t[1] == ("lib", "os.path.isdir") and len(t[2]) == 1:
+            subject, role = t[2][0], "ISDIR"
+        if subject is not None:
+            if strip_abs(loc(subject)) == target:
+                return atom(role)
+            ch = _child_of(subject)
+            if name is not None and ch is not None and ch[0] == target and ch[1] == name:
+                return atom("C." + role)
+        unknown.add(key)
+        return None
+
+    return rename_atoms(f, mapping), unknown
+
+
+def _judge_walk(repo: Repo, res: Result, rule: str, info: ScanInfo, w: Walk) -> int:
+    """Obligations about the extent of an os.walk scan (see the model above); sets `w.invariant`."""
+    sx, e = info.sx, w.event
+    key = repo.key(e.fi, stmt_of(e.node))
+    wh = where(e.fi, e.node)
+    n = 0
+    DX, CX = atom("EXCL"), atom("C.EXCL")
+    facts = f_and([atom("ISDIR"), atom("C.ISDIR")])  # what the library visits / lists as sub-directories are directories
+    # ---- what is known about the start
+    f_top, unk_top = _walk_atoms(sx, f_and(e.pc), w.top)
+    base = implies(f_top, f_not(DX))
+    # ---- which children are descended into
+    unread: set[str] = set()
+    cleared = []
+    for ev in w.cleared:
+        g, u = _walk_atoms(sx, _relative(ev.pc, e.pc), w.directory)
+        cleared.append(g)
+        unread |= u
+    keeps = []
+    for ev, g0, name in w.keeps:
+        g, u = _walk_atoms(sx, g0, w.directory, name)
+        keeps.append(g)
+        unread |= u
+    desc = f_and([f_not(f_or(cleared)), *keeps, facts])
+    if w.materialised:
+        desc = facts  # the library has finished before the loop body runs for the first time
+    step = implies(f_and([f_not(DX), desc]), f_not(CX))
+    w.invariant = True if base and step else None if (not base and unk_top) or (not step and unread) else False
+    known = f_not(DX) if w.invariant else TRUE
+    maybe = w.invariant is None  # a failing check may only be due to what could not be read
+    what = "the directory handed out by `os.walk`"
+    # ---- children of an excluded directory are not visited
+    ok = implies(f_and([known, desc]), f_not(DX))
+    n += 1
+    if ok:
+        res.add(rule, key + " [directory descended]", True, "os.walk descends only below directories that are not excluded: " + ("the start is tested before the call and excluded names are taken out of the list of sub-directories" if w.invariant else "the list of sub-directories is emptied when the visited directory is excluded"), wh, kind="dominance")
+    elif unread or w.materialised or maybe:
+        why = f"the walk is materialised by `{show(w.loop.iter, 60)}` before the first directory is looked at, so pruning the list of sub-directories cannot stop the descent: cannot see how the directories below an excluded directory are skipped" if w.materialised else f"cannot tell whether `{sorted(unread | unk_top)[0][:120]}` stops the descent below an excluded directory"
+        res.undecide(rule, key + " [directory descended]", why, wh)
+    else:
+        hint = "nothing is ever taken out of the list of sub-directories in place (rebinding the name does not change the list the library holds)" if not w.cleared and not w.keeps else f"sub-directories are descended into under `{show_formula(simplify(desc))[:120]}`"
+        res.add(rule, key + " [directory descended]", False, f"`os.walk` descends into the sub-directories of {what} although that directory is excluded ({hint}): the children of an excluded directory are still scanned", wh, kind="dominance")
+    # ---- every non-excluded child of a non-excluded directory is visited
+    ok = implies(f_and([f_not(DX), f_not(CX), facts]), desc)
+    n += 1
+    if ok:
+        res.add(rule, key + " [all entries visited]", True, "every sub-directory that is not excluded is descended into", wh, kind="flow")
+    elif unread:
+        res.undecide(rule, key + " [all entries visited]", f"cannot tell whether `{sorted(unread)[0][:120]}` ever keeps the walk from a sub-directory that is not excluded", wh)
+    else:
+        res.add(rule, key + " [all entries visited]", False, f"not every sub-directory of a visited directory is visited: the walk only descends under `{show_formula(simplify(desc))[:140]}`", wh, kind="flow")
+    # ---- the walk is started for every directory that is not excluded
+    ok = not unk_top and implies(f_and([atom("ISDIR"), f_not(DX)]), f_top)
+    n += 1
+    if ok:
+        res.add(rule, key + " [walk started]", True, "the walk is started for every start directory that is not excluded", wh, kind="decision-table")
+    else:
+        res.undecide(rule, key + " [walk started]", f"cannot tell whether the condition `{show_formula(f_and(e.pc))[:140]}` keeps the walk from a start directory that is not excluded", wh)
+    # ---- the files of a visited directory
+    groups: dict[int, list] = {}
+    comps: list = []
+    lazy_filters: list[str] = []
+    for ev in info.trace.events:
+        if not any(l.id == w.loop.id for l in ev.loops) or ev.kind not in ("mut", "call", "yield"):
+            continue
+        operands = [*ev.args, *[v for _k, v in ev.kwargs], *([ev.recv] if ev.recv is not None else [])]
+        for a in operands:
+            for x in subterms(a):
+                if x[0] == "comp" and len(x[3]) == 1 and _is_copy_of(x[3][0][1], w.files) is not None and any(y == x[3][0][0] for y in subterms(x[2])):
+                    comps.append((ev, x))
+                elif x[0] == "elem" and _is_copy_of(x[1], w.files) is not None and any(l.id == x[2] and l.kind != "comp" for l in ev.loops) and (ev.kind != "call" or ev.func[0] in ("fn", "cls", "lib", "builtin")):
+                    # (a method of the name itself, `f.startswith(..)`, looks at the entry; it does not hand it on)
+                    groups.setdefault(x[2], []).append(ev)
+                elif x[0] == "elem" and _is_copy_of(x[1], w.files) is not None and (ev.kind != "call" or ev.func[0] in ("fn", "cls", "lib", "builtin")):
+                    # a loop over a comprehension of the file names (`for p in [d / f for f in files]`)
+                    for l in ev.loops:
+                        src = unbox(_unwrap_iterable(l.iter)) if l.iter is not None and l.kind != "comp" else None
+                        if src is not None and src[0] == "comp" and len(src[3]) == 1 and src[3][0][0] == x:
+                            if [c for c in src[3][0][2] if c != TRUE]:
+                                lazy_filters.append(f"only the files with `{show_formula(f_and([c for c in src[3][0][2] if c != TRUE]))[:120]}` are handed on")
+                            else:
+                                groups.setdefault(l.id, []).append(ev)
+    handed: list[Formula] = []
+    filtered: list[str] = list(lazy_filters)
+    for ev, c in comps:
+        conds = [g for g in c[3][0][2] if g != TRUE]
+        if conds:
+            filtered.append(f"only the files with `{show_formula(f_and(conds))[:120]}` are handed on")
+        else:
+            handed.append(_relative(ev.pc, e.pc))
+    for lid, evs in groups.items():
+        entry = _pc_at_loop(info, lid)
+        free = [ev for ev in evs if _relative(ev.pc, entry) == TRUE]
+        lp = next(l for l in evs[0].loops if l.id == lid)
+        if lp.early_exit and not lp.exits_only_when_exhausted():
+            filtered.append(f"the loop `{_loop_text(lp)}` over the files can be left early")
+        elif free:
+            handed.append(_relative(entry, e.pc))
+        else:
+            filtered.append(f"a file is only handed on if `{show_formula(_relative(evs[0].pc, entry))[:120]}`")
+    n += 1
+    if not handed and not filtered:
+        res.undecide(rule, key + " [files handed on]", "cannot see where the files of a visited directory are handed on", wh)
+    elif not handed:
+        res.add(rule, key + " [files handed on]", False, f"not every file of a visited directory is visited: {filtered[0]}", wh, kind="flow")
+    else:
+        g_f, u_f = _walk_atoms(sx, f_or(handed), w.directory)
+        sound = implies(f_and([known, g_f]), f_not(DX))
+        complete = implies(f_not(DX), _exists(g_f, sorted(u_f)[:6])) if len(u_f) <= 6 else False
+        if sound and complete:
+            res.add(rule, key + " [files handed on]", True, "the files of a visited directory are handed on exactly when the directory is not excluded", wh, kind="flow")
+        elif u_f or (maybe and complete):
+            res.undecide(rule, key + " [files handed on]", f"cannot tell whether `{sorted(u_f | unread | unk_top)[0][:120]}` decides about the files of a visited directory", wh)
+        elif not sound:
+            res.add(rule, key + " [files handed on]", False, f"the files of {what} are handed on although that directory is excluded (guard: {show_formula(g_f)[:100]}): files below an excluded directory are parsed", wh, kind="dominance")
+        else:
+            res.add(rule, key + " [files handed on]", False, f"the files of a directory that is not excluded are only handed on under `{show_formula(g_f)[:120]}`", wh, kind="flow")
+    return n
+
+
 # --------------------------------------------------------------------------- the rule
+
+
+def _walk_context(sx: SymX, walk: "Walk | None", e: Event, known: Formula, path: "Term | None"):
+    """(condition, facts, accepted atoms) for an event inside the loop over an os.walk scan: the condition without what was tested
+    before the walk started (judged as 'walk started'), what the model knows about the path the event is about, and the atoms about
+    the visited directory in the condition of an event about one of its files (judged as 'files handed on')."""
+    if walk is None or path is None:
+        return known, TRUE, set()
+    if not any(l.id == walk.loop.id for l in e.loops):
+        # a second pass over the directories that the walk collected: what held when a directory was put into the collection
+        g = _collected_directories(sx, walk, path)
+        if g is None and _collects_files(walk, path):
+            # a second pass over the files that the walk collected (their hand-over is judged as 'files handed on')
+            return _relative(_conjuncts(known), walk.event.pc), TRUE, set()
+        if g is None:
+            return known, TRUE, set()
+        return _relative(_conjuncts(known), walk.event.pc), f_and([atom("ISDIR"), f_not(atom("EXCL")) if walk.invariant else TRUE, g]), set()
+    rel = _relative(_conjuncts(known), walk.event.pc)
+    target = strip_abs(loc(path))
+    if target == strip_abs(loc(walk.directory)):
+        return rel, f_and([atom("ISDIR"), f_not(atom("EXCL")) if walk.invariant else TRUE]), set()
+    ch = _child_of(path)
+    if ch is not None and ch[0] == strip_abs(loc(walk.directory)) and ch[1][0] == "elem" and _is_copy_of(ch[1][1], walk.files) is not None:
+        _g, unknown = _walk_atoms(sx, rel, walk.directory)
+        return rel, f_not(atom("ISDIR")), {k for k in atoms_of(rel) if k not in unknown}
+    if ch is not None and ch[0] == strip_abs(loc(walk.directory)) and ch[1][0] == "elem" and _is_copy_of(ch[1][1], walk.subdirs) is not None:
+        # a sub-directory handled at its parent (the names the library lists as sub-directories are directories); when the list
+        # has been pruned before, what is still in it has passed the pruning
+        _g, unknown = _walk_atoms(sx, rel, walk.directory)
+        facts = [atom("ISDIR")]
+        order = {id(ev): i for i, ev in enumerate(walk.trace_events)}
+        for ev, g0, name in walk.keeps:
+            if order.get(id(ev), 1 << 30) < order.get(id(e), -1) and not any(l.id == name[2] for l in e.loops if name[0] == "elem"):
+                g, _u = _walk_atoms(sx, g0, walk.directory, name)
+                facts.append(rename_atoms(g, lambda k: atom("EXCL") if k == "C.EXCL" else atom("ISDIR") if k == "C.ISDIR" else atom("<the visited directory is excluded>") if k == "EXCL" else TRUE if k == "ISDIR" else None))
+        return rel, f_and(facts), {k for k in atoms_of(rel) if k not in unknown} | {"<the visited directory is excluded>"}
+    return known, TRUE, set()
+
+
+def _collected_directories(sx: SymX, walk: Walk, path: Term) -> "Formula | None":
+    """If `path` is an element of a list / set that is filled with nothing but the directory visited by the walk (one `append` /
+    `add` per iteration): the condition of that append, over the atoms of the element itself; None otherwise."""
+    if path[0] != "elem" or walk.invariant is None:
+        return None
+    src = _unwrap_iterable(path[1])
+    if src[0] != "box":
+        return None
+    d = strip_abs(loc(walk.directory))
+    guards = []
+    init = sx.box_init.get(src[1], src[3])
+    if not (init[0] in ("list", "set", "tuple") and not init[1] or init[0] == "call" and not init[2]):
+        return None
+    for ev in walk.trace_events:
+        if ev.kind in ("mut", "setitem", "delitem") and ev.recv is not None and ev.recv[0] == "box" and ev.recv[1] == src[1]:
+            if ev.kind != "mut" or ev.name not in ("append", "add") or len(ev.args) != 1 or strip_abs(loc(ev.args[0])) != d or not any(l.id == walk.loop.id for l in ev.loops):
+                return None
+            if any(l.id != walk.loop.id and l not in walk.event.loops for l in ev.loops):
+                return None
+            g, unknown = _walk_atoms(sx, _relative(ev.pc, walk.event.pc), walk.directory)
+            if unknown:
+                return None
+            guards.append(g)
+    return f_or(guards) if guards else None
+
+
+def _collects_files(walk: Walk, path: Term) -> bool:
+    """`path` is an element of a collection to which the loop over the walk adds the paths of the files of the visited directory
+    (and nothing else)."""
+    boxes = {x[1] for x in subterms(path[1]) if x[0] == "box"} if path[0] == "elem" else set()
+    d = strip_abs(loc(walk.directory))
+    found = False
+    for ev in walk.trace_events:
+        if ev.kind != "mut" or ev.recv is None or ev.recv[0] != "box" or ev.recv[1] not in boxes or not any(l.id == walk.loop.id for l in ev.loops):
+            continue
+        if ev.name not in ("append", "add", "extend", "update") or len(ev.args) != 1:
+            return False
+        a = unbox(ev.args[0])
+        el = a[2] if a[0] == "comp" and len(a[3]) == 1 else a
+        ch = _child_of(el)
+        if ch is None or ch[0] != d or ch[1][0] != "elem" or _is_copy_of(ch[1][1], walk.files) is None:
+            return False
+        found = True
+    return found
+
+
+def _holds_walked_directories(info: ScanInfo, walk: "Walk | None", path: "Term | None") -> bool:
+    """The path is an element of a container that the loop over the walk fills with the visited directories (or their
+    sub-directories): a second pass over what the walk collected, whose conditions this rule does not carry over."""
+    if walk is None or path is None:
+        return False
+    boxes = {x[1] for x in subterms(path) if x[0] == "box"}
+    if not boxes:
+        return False
+    d = strip_abs(loc(walk.directory))
+    for ev in info.trace.events:
+        if ev.kind != "mut" or ev.recv is None or ev.recv[0] != "box" or ev.recv[1] not in boxes or not any(l.id == walk.loop.id for l in ev.loops):
+            continue
+        for a in ev.args:
+            for x in subterms(a):
+                if strip_abs(loc(x)) == d:
+                    inside_file = any((c := _child_of(y)) is not None and c[1][0] == "elem" and _is_copy_of(c[1][1], walk.files) is not None and x in subterms(y) for y in subterms(a))
+                    if not inside_file:
+                        return True
+    return False
 
 
 def run_registration(repo: Repo, res: Result, rule: str) -> int:
@@ -409,6 +862,7 @@ def run_registration(repo: Repo, res: Result, rule: str) -> int:
     info = analyse(repo)
     sx, parse = info.sx, info.parse
     n = 0
+    walk: "Walk | None" = None
     delegated = [e for e in info.trace.events if e.kind == "call" and (e.func[0] == "lib" and e.func[1] in ("os.walk", "os.fwalk", "glob.glob", "glob.iglob") or e.name in ("rglob", "walk") and e.func[0] == "method")]
     if delegated:
         e = delegated[0]
@@ -422,8 +876,16 @@ def run_registration(repo: Repo, res: Result, rule: str) -> int:
             if follow is None or follow == ("const", False):
                 res.add(rule, repo.key(e.fi, stmt_of(e.node)) + " [walk follows links]", False, "`os.walk` does not descend into directories that are symbolic links unless `followlinks=True`: a linked package directory and everything below it is no longer scanned (a directory is whatever `is_dir()` says, which follows links)", where(e.fi, e.node), kind="structural")
                 return 0
-        res.undecide(rule, repo.key(e.fi, stmt_of(e.node)) + " [walk]", f"the directory walk is delegated to `{show(e.result, 60) if e.result else e.name}`: which directories are entered and which entries are skipped is decided inside the library", where(e.fi, e.node))
-        return 0
+        walk = walk_model(info, e) if e.func == ("lib", "os.walk") and len(delegated) == 1 else None
+        if walk is not None and walk.violations:
+            for ev, tag_, detail in walk.violations:
+                res.add(rule, repo.key(ev.fi, stmt_of(ev.node)) + f" [{tag_}]", False, detail, where(ev.fi, ev.node), kind="flow")
+            return 0
+        if walk is None or walk.problems:
+            why = walk.problems[0] if walk is not None else f"the directory walk is delegated to `{show(e.result, 60) if e.result else e.name}`: which directories are entered and which entries are skipped is decided inside the library"
+            res.undecide(rule, repo.key(e.fi, stmt_of(e.node)) + " [walk]", why, where(e.fi, e.node))
+            return 0
+        n += _judge_walk(repo, res, rule, info, walk)
     if info.problems and not info.regs:
         for p in info.problems:
             res.undecide(rule, f"{parse.relpath}::{parse.qualname}::module registration", p, where(parse, parse.node))
@@ -439,7 +901,9 @@ def run_registration(repo: Repo, res: Result, rule: str) -> int:
             res.undecide(rule, key + " [module registered]", f"cannot tell which path the registered name `{show(reg.element, 100)}` belongs to", wh)
             continue
         name_atoms = frozenset(guard_atoms(reg.element) | _name_truthiness_atoms(sx, reg.known, reg))
-        f, roles, improper = classify_atoms(sx, reg.known, reg.path, name_atoms)
+        known_, walk_facts, walk_atoms = _walk_context(sx, walk, e, reg.known, reg.path)
+        f, roles, improper = classify_atoms(sx, known_, reg.path, name_atoms)
+        f = f_and([f, walk_facts])
         if implies(f, atom("ISDIR")):
             kind = "directory"
         elif implies(f, f_not(atom("ISDIR"))) or implies(f, atom("PY")):
@@ -455,6 +919,15 @@ def run_registration(repo: Repo, res: Result, rule: str) -> int:
             res.undecide(rule, key + f" [{kind} registered]", f"cannot interpret the test `{unknown[0][:120]}` on the registered path", wh)
             continue
         elsewhere = _exclusion_tests_elsewhere(info, reg.path)
+        in_walk = walk is not None and any(l.id == walk.loop.id for l in e.loops)
+        if not ok and not in_walk and _holds_walked_directories(info, walk, reg.path):
+            res.undecide(rule, key + f" [{kind} registered]", "the registered path comes out of a collection that the loop over `os.walk` fills with directories: cannot carry the conditions of the walk over to this second pass", wh)
+            continue
+        if in_walk and not ok and walk.invariant is None and strip_abs(loc(reg.path)) == strip_abs(loc(walk.directory)):
+            res.undecide(rule, key + f" [{kind} registered]", "cannot tell whether every directory that `os.walk` visits has passed the exclusion test (see the walk)", wh)
+            continue
+        if in_walk:
+            elsewhere = []  # tests on the entries of the visited directory are accounted for by the model of the walk
         if not ok and not improper and elsewhere and not implies(f, f_not(atom("EXCL"))):
             res.undecide(rule, key + f" [{kind} registered]", f"the exclusion predicate is applied to `{show_loc(loc(elsewhere[0]))}` (e.g. when entries are selected), not to the registered path at the point of registration: cannot connect the two", wh)
             continue
@@ -469,7 +942,7 @@ def run_registration(repo: Repo, res: Result, rule: str) -> int:
         res.add(rule, key + f" [{kind} registered]", ok, detail, wh, kind="dominance")
         # exactly when: nothing but the scan conditions decides about a registration
         if ok:
-            accepted = {k for k, r in roles.items() if r == "WORK"} | _name_truthiness_atoms(sx, reg.known, reg)
+            accepted = {k for k, r in roles.items() if r == "WORK"} | _name_truthiness_atoms(sx, reg.known, reg) | walk_atoms
             # `entry is _NO_MORE_ENTRIES` / `entry is None`: the end-of-iteration marker of the walk, not a property of a path
             accepted |= {k for k in atoms_of(f) if (t_ := sx.atoms.get(k)) is not None and t_[0] == "cmp" and t_[1] == "is" and any(o[0] == "lib" or is_none(o) for o in (t_[2], t_[3])) and any(_projection_of(reg.path, o) for o in (t_[2], t_[3]))}
             # case distinctions of the name computation do not decide about the registration when both cases register
@@ -500,6 +973,8 @@ def run_registration(repo: Repo, res: Result, rule: str) -> int:
             res.add(rule, key + f" [{kind} registered exactly when]", ok2, det2, wh, kind="decision-table")
     # descent
     for e in info.descents:
+        if walk is not None and e is walk.event:
+            continue  # judged on the model of the walk
         subj = e.recv if e.recv is not None else e.arg(0)
         key = repo.key(e.fi, stmt_of(e.node))
         f, roles, improper = classify_atoms(sx, f_and(e.pc), subj)
@@ -514,6 +989,8 @@ def run_registration(repo: Repo, res: Result, rule: str) -> int:
         res.add(rule, key + " [directory descended]", ok, detail, where(e.fi, e.node), kind="dominance")
     # every entry of a visited directory is handed on (to the work list / the recursive call / the consumer of the walk)
     for e in info.descents:
+        if walk is not None and e is walk.event:
+            continue
         verdict, detail = _children_handed_on(info, e)
         key = repo.key(e.fi, stmt_of(e.node))
         n += 1
@@ -529,7 +1006,8 @@ def run_registration(repo: Repo, res: Result, rule: str) -> int:
         if subj is None:
             res.undecide(rule, key + f" [{what}]", f"cannot tell which file `{show(e.result, 80) if e.result else e.name}` reads", where(e.fi, e.node))
             continue
-        f, roles, improper = classify_atoms(sx, f_and(e.pc), subj)
+        known_, _facts, _wa = _walk_context(sx, walk, e, f_and(e.pc), subj)
+        f, roles, improper = classify_atoms(sx, known_, subj)
         goal = f_and([f_not(atom("EXCL")), atom("PY")])
         ok = implies(f, goal)
         n += 1
@@ -557,6 +1035,8 @@ def run_registration(repo: Repo, res: Result, rule: str) -> int:
             continue
         seen.add(key)
         ok = l in walked
+        if not ok and walk is not None and (ch := _child_of(a)) is not None and ch[0] == strip_abs(loc(walk.directory)) and ch[1][0] == "elem" and (_is_copy_of(ch[1][1], walk.subdirs) is not None or _is_copy_of(ch[1][1], walk.files) is not None):
+            ok = True  # the path of an entry of the visited directory, built from the names the library lists
         n += 1
         if not ok and not any(_part_of(loc(a), w) for w in walked):
             res.undecide(rule, key + " [exclusion test on the path]", f"cannot relate `{show_loc(loc(a))}` to the visited path", where(e.fi, e.node))
